@@ -30,13 +30,17 @@ var panicExceptions = []e4panic.Exception{
 		Reason: "a nil TransformOption is a programming error of the caller, not an input; the property quantifies over inputs"},
 }
 
+// The three invariants express one reviewed fact — "paired maps": every type definition the DSL listener builds
+// (and the merger keeps) has Relations and Metadata.Relations written together under the same keys
+// (ExitRelationDeclaration), and ExitTypeDef drops Metadata only when there are no relations. They are keyed by the
+// static type and the shape of the access path, not by variable names, so renaming or re-spelling the lookup keeps them.
 var panicInvariants = []e4panic.Invariant{
-	{Func: "transformer.TransformModuleFilesToModel", Value: "‹v›[slices.IndexFunc(‹v›, ‹v›)].Metadata", Requires: "len(‹v›[slices.IndexFunc(‹v›, ‹v›)].Relations) == 0 is false",
-		Reason: "paired maps: a base type definition that has relations was built by the DSL listener with Metadata and Metadata.Relations populated under the same keys (ExitRelationDeclaration; ExitTypeDef drops Metadata only when there are no relations)"},
-	{Func: "transformer.TransformModuleFilesToModel", Value: "‹v›[slices.IndexFunc(‹v›, ‹v›)].Metadata.Relations", Requires: "len(‹v›[slices.IndexFunc(‹v›, ‹v›)].Relations) == 0 is false",
-		Reason: "paired maps: as above — Relations non-empty implies Metadata.Relations non-empty, hence non-nil"},
-	{Func: "transformer.TransformModuleFilesToModel", Value: "relationsMeta",
-		Reason: "paired maps: for every type definition built by the DSL listener, Relations and Metadata.Relations are written together under the same key (ExitRelationDeclaration) and the merger itself keeps them paired, so the metadata entry for a name taken from typeDef.Relations exists and is non-nil"},
+	{Func: "transformer.TransformModuleFilesToModel", Type: "openfga/v1.Metadata", PathSuffix: ".Metadata", RequiresBase: "len(%s.Relations) == 0 is false",
+		Reason: "paired maps: a type definition that has relations has Metadata"},
+	{Func: "transformer.TransformModuleFilesToModel", Type: "openfga/v1.RelationMetadata", PathSuffix: ".Metadata.Relations", RequiresBase: "len(%s.Relations) == 0 is false",
+		Reason: "paired maps: Relations non-empty implies Metadata.Relations non-empty, hence a non-nil map"},
+	{Func: "transformer.TransformModuleFilesToModel", Type: "*github.com/openfga/api/proto/openfga/v1.RelationMetadata",
+		Reason: "paired maps: the metadata entry looked up (or found by scanning) for a relation name taken from the same type definition's Relations exists and is non-nil"},
 }
 
 // panicFreedom runs E4 over the functions reachable from the entry points, restricted to the given packages.
